@@ -35,7 +35,7 @@ Ltac shl_neg_tac a b :=
   pose proof (pow2_le (- b) 15 ltac:(lia));
   (replace ((0 <=? _) && (_ <=? _)) with true by (unfold imax; cbn; nia)); discriminate.
 
-Lemma h_shl_no_ub m t a b : ity_ok t -> in_ity t a -> in_ity (to_signed t) b -> h_shl m t a b <> OUB.
+Lemma h_shl_no_ub m t a b : ity_ok t -> in_ity t a -> in_ity I64 b -> h_shl m t a b <> OUB.
 Proof.
   intros Ht. revert a b. pattern t. apply ity_cases; [| | | | | | | |exact Ht];
   intros a b Ha Hb; shift_common a b Ha Hb; unfold h_shl; cb;
@@ -44,7 +44,7 @@ Proof.
    | destruct ((b <? 0) && (_ <? b)) eqn:E2; [ shr_neg_tac a b | discriminate ] ]).
 Qed.
 
-Lemma h_shr_no_ub m t a b : ity_ok t -> in_ity t a -> in_ity (to_signed t) b -> h_shr m t a b <> OUB.
+Lemma h_shr_no_ub m t a b : ity_ok t -> in_ity t a -> in_ity I64 b -> h_shr m t a b <> OUB.
 Proof.
   intros Ht. revert a b. pattern t. apply ity_cases; [| | | | | | | |exact Ht];
   intros a b Ha Hb; shift_common a b Ha Hb; unfold h_shr; cb;
